@@ -27,9 +27,11 @@ class Param:
         if ctype in PTYPES:
             self.kind, self.tag = PTYPES[ctype]
         else:
-            assert ctype.endswith(" *"), ctype
+            # a class instance: by pointer `Cls *`, by reference `Cls &` / `const Cls &`, by value `Cls`
             self.kind, self.tag = "object", "u"
-            self.ocls = ctype[:-2]
+            base = ctype[6:] if ctype.startswith("const ") else ctype
+            self.passed = "ptr" if base.endswith(" *") else "ref" if base.endswith(" &") else "val"
+            self.ocls = base[:-2] if self.passed != "val" else base
 
     def decl(self, cxx=False):
         sep = "" if self.ctype.endswith(("&", "*")) else " "
@@ -51,6 +53,12 @@ class Param:
         return self.default.strip('"')
 
 
+def short(cname):
+    """C++ name of a class as written inside its own scope; the class KEY used by the harness is the name
+    a parameter type is written with ("Cls1", or "inner::Node" for same-named classes of different namespaces)."""
+    return cname.split("::")[-1]
+
+
 class Fn:
     def __init__(self, uid, name, params, rtype, role="free", cls=None, const=False, static=False):
         self.uid = uid
@@ -68,9 +76,9 @@ class Fn:
     def decl(self):
         ps = ", ".join(p.decl() for p in self.params)
         if self.role == "ctor":
-            return "%s(%s)" % (self.cls, ps)
+            return "%s(%s)" % (short(self.cls), ps)
         if self.role == "dtor":
-            return "~%s()" % self.cls
+            return "~%s()" % short(self.cls)
         sep = "" if self.rtype.endswith("&") else " "
         s = "%s%s%s%s(%s)" % ("static " if self.static else "", self.rtype, sep, self.name, ps)
         if self.const:
@@ -144,6 +152,7 @@ class LuaLib:
         self.nfn = 0
         self.class_attrs = {}           # class name -> extra keys of its YAML entry (format / options)
         self.lib_options = {}           # extra library-level options (e.g. LUA_metadata_template)
+        self.late_free = []             # Fn at global scope, declared after the namespaces
 
     def new_uid(self):
         self.nfn += 1
@@ -154,14 +163,14 @@ class LuaLib:
         # classes first: a class-pointer parameter needs its class declared before it is used
         decls = []
         for cname, fns in self.classes:
-            e = {"decl": "class " + cname, "declarations": [{"decl": f.decl()} for f in fns]}
+            e = {"decl": "class " + short(cname), "declarations": [{"decl": f.decl()} for f in fns]}
             e.update(self.class_attrs.get(cname, {}))
             decls.append(e)
         decls += [{"decl": f.decl()} for f in self.free]
         def ns_decl(ns):
             inner = []
             for cname, fns in ns.classes:
-                e = {"decl": "class " + cname, "declarations": [{"decl": f.decl()} for f in fns]}
+                e = {"decl": "class " + short(cname), "declarations": [{"decl": f.decl()} for f in fns]}
                 e.update(self.class_attrs.get(cname, {}))
                 inner.append(e)
             inner += [{"decl": f.decl()} for f in ns.fns]
@@ -172,6 +181,8 @@ class LuaLib:
             return e
 
         decls += [ns_decl(ns) for ns in self.nss]
+        # library-level functions declared after the namespaces (their parameter types name classes of namespaces)
+        decls += [{"decl": f.decl()} for f in self.late_free]
         opts = {"wrap_fortran": False, "wrap_c": False, "wrap_python": False, "wrap_lua": True, "debug": True}
         opts.update(self.lib_options)
         return libgen.Lib(self.name, "c++", decls, opts)
@@ -220,12 +231,16 @@ class LuaLib:
              "inline const std::string &c18_str(int uid) { static std::string s[512]; s[uid % 512] = \"r\" + std::to_string(uid); return s[uid % 512]; }",
              ""]
 
+        def objrec(p):
+            # by reference / by value: the object (or the copy of it) identifies itself
+            return ".p(%s)" % p.name if p.passed == "ptr" else ".obj(%s.id_)" % p.name
+
         def body(f, indent, in_class):
             rec = "C18Rec(%d)" % f.uid
             if in_class and f.role != "free" and not f.static:
                 rec += ".obj(id_)"
             for p in f.params:
-                rec += (".p(%s)" if p.kind == "object" else ".a(%s)") % p.name
+                rec += objrec(p) if p.kind == "object" else ".a(%s)" % p.name
             lines = ["{ " + rec + ";"]
             rv = f.retval()
             if f.rtype in ("int", "long"):
@@ -246,9 +261,20 @@ class LuaLib:
 
         for cname, fns in self.classes:
             o.append("class %s;" % cname)
-        for f in self.free:
-            o.append("inline " + proto(f) + " " + body(f, "", False))
+
+        def fwd_ns(ns):
+            if ns.classes or ns.subs:
+                o.append("namespace %s {" % ns.name)
+                for cname, fns in ns.classes:
+                    o.append("class %s;" % short(cname))
+                for x in ns.subs:
+                    fwd_ns(x)
+                o.append("}")
+
+        for ns in self.nss:
+            fwd_ns(ns)
         def emit_class(cname, fns):
+            cname = short(cname)
             o.append("class %s {" % cname)
             o.append("public:")
             o.append("    int id_;")
@@ -256,7 +282,7 @@ class LuaLib:
                 ps = ", ".join(p.decl(cxx=True) for p in f.params)
                 if f.role == "ctor":
                     rec = "C18Rec(%d).obj(id_)" % f.uid + "".join(
-                        (".p(%s)" if p.kind == "object" else ".a(%s)") % p.name for p in f.params)
+                        objrec(p) if p.kind == "object" else ".a(%s)" % p.name for p in f.params)
                     o.append("    %s(%s) : id_(++c18_nobj()) { c18_ids()[this] = id_; %s; }" % (cname, ps, rec))
                 elif f.role == "dtor":
                     o.append("    ~%s() { C18Rec(%d).obj(id_); }" % (cname, f.uid))
@@ -266,6 +292,8 @@ class LuaLib:
 
         for cname, fns in self.classes:
             emit_class(cname, fns)
+        for f in self.free:
+            o.append("inline " + proto(f) + " " + body(f, "", False))
 
         def emit_ns(ns):
             o.append("namespace %s {" % ns.name)
@@ -279,6 +307,8 @@ class LuaLib:
 
         for ns in self.nss:
             emit_ns(ns)
+        for f in self.late_free:
+            o.append("inline " + proto(f) + " " + body(f, "", False))
         o.append("#endif")
         return "\n".join(o) + "\n"
 
@@ -465,6 +495,15 @@ def gen_lualib(r, name, nfree=None, nclasses=None, with_ns=None, rich=False):
     if with_ns:
         for _ in range(r.randrange(1, 3)):
             lib.nss.append(gen_ns(1, ""))
+    if r.random() < 0.4:
+        # two wrapped classes with one unqualified name, in namespaces of their own or in a generated one
+        if lib.nss and r.random() < 0.5:
+            ns2 = lib.nss[-1]
+        else:
+            ns2 = Ns("twb")
+            lib.nss.append(ns2)
+        add_twins(lib, "twa", ns2, tag=r.choice(["", "X"]), override_first=r.random() < 0.5)
+    number_classes(lib)
     return lib
 
 
@@ -579,4 +618,75 @@ def fixed_lualib(name="luafix"):
     lib.groups.append(Group("__gc", "dtor", "Foo", dt))
     for nm, fs in (("m0", m0), ("m1", m1), ("m2", m2), ("cm", cm), ("mw", mw), ("mz", mz)):
         lib.groups.append(Group(nm, "method", "Foo", fs))
+    add_twins(lib, "inner", lib.nss[0])
+    # class instances by reference and by value (the object held by the userdata, not a pointer to it)
+    byref = _mk(lib, "byref", "free", None, [[("const Bar &", None)], [("int", None), ("Foo &", None), ("int", "0")]], ["int", "void"])
+    byval = _mk(lib, "byval", "free", None, [[("Only", None), ("Foo *", None), ("const outer::Node &", None)]], ["double"])
+    lib.late_free += byref + byval
+    lib.groups.append(Group("byref", "free", None, byref))
+    lib.groups.append(Group("byval", "free", None, byval))
+    mref = _mk(lib, "mref", "method", "Bar", [[("Foo &", None)], [("const Foo &", None), ("int", None)]], ["int", "void"])
+    for i, (c, fns) in enumerate(lib.classes):
+        if c == "Bar":
+            lib.classes[i] = (c, fns + mref)
+    lib.groups.append(Group("mref", "method", "Bar", mref))
+    number_classes(lib)
     return lib
+
+
+def _mk(lib, nm, role, cls, sigs, rt, **kw):
+    fns = []
+    for ps, r_ in zip(sigs, rt):
+        uid = lib.new_uid()
+        params = [Param(x[0], "p%d_%d" % (uid, i), x[1]) for i, x in enumerate(ps)]
+        fns.append(Fn(uid, nm, params, r_, role=role, cls=cls, **kw))
+    return fns
+
+
+def add_twins(lib, ns1, ns2, tag="", override_first=True):
+    def mk(*a, **kw):
+        return _mk(lib, *a, **kw)
+    mko = mk
+    """Two wrapped classes with the same unqualified name in different namespaces (the first one in a new
+    namespace `ns1`, with the format fields that keep the generated C names apart; the second in the
+    existing Ns `ns2`), used as class-pointer arguments of library-level functions, of each other's methods,
+    at different stack positions, and overloaded on the class."""
+    k1, k2 = "%s::Node%s" % (ns1, tag), "%s::Node%s" % (ns2.name, tag)
+    sn = "Node" + tag
+    c1 = mk("ctor", "ctor", k1, [[]], [k1])
+    d1 = mk("dtor", "dtor", k1, [[]], ["void"])
+    dep = mk("depth" + tag, "method", k1, [[]], ["int"])
+    c2 = mk("ctor", "ctor", k2, [[], [("int", None)]], [k2, k2])
+    d2 = mk("dtor", "dtor", k2, [[]], ["void"])
+    wid = mk("width" + tag, "method", k2, [[]], ["int"])
+    cmp_ = mko("cmp" + tag, "method", k2, [[(k1 + " *", None), (k2 + " *", None)], [(k2 + " *", None)]], ["int", "void"])
+    lib.nss.insert(0, Ns(ns1, classes=[(k1, c1 + d1 + dep)]))
+    ns2.classes.append((k2, c2 + d2 + wid + cmp_))
+    ko, nso = (k1, ns1) if override_first else (k2, ns2.name)
+    lib.class_attrs[ko] = {"format": {"LUA_userdata_type": "l_%s%s_Type" % (nso, sn), "LUA_metadata": "%s.%s.metatable" % (nso, sn),
+                                      "LUA_class_reg": "l_%s%s_Reg" % (nso, sn), "LUA_ctor_name": nso + sn}}
+    lib.groups.append(Group(ns1 + sn if override_first else sn, "ctor", k1, c1, scope=ns1 + "::"))
+    lib.groups.append(Group("__gc", "dtor", k1, d1, scope=ns1 + "::"))
+    lib.groups.append(Group("depth" + tag, "method", k1, dep, scope=ns1 + "::"))
+    lib.groups.append(Group(sn if override_first else ns2.name + sn, "ctor", k2, c2, scope=ns2.name + "::"))
+    lib.groups.append(Group("__gc", "dtor", k2, d2, scope=ns2.name + "::"))
+    lib.groups.append(Group("width" + tag, "method", k2, wid, scope=ns2.name + "::"))
+    lib.groups.append(Group("cmp" + tag, "method", k2, cmp_, scope=ns2.name + "::"))
+    visit = mko("visit" + tag, "free", None, [[(k1 + " *", None)]], ["int"])
+    measure = mko("measure" + tag, "free", None, [[(k2 + " *", None), ("int", "0")]], ["int"])
+    both = mko("both" + tag, "free", None, [[(k2 + " *", None), (k1 + " *", None)], [("int", None), (k1 + " *", None), (k2 + " *", None)]],
+               ["void", "double"])
+    pick = mko("pick" + tag, "free", None, [[("bool", None), (k1 + " *", None)], [("int", None), (k2 + " *", None)]], ["int", "void"])
+    lib.late_free += visit + measure + both + pick
+    for nm, fs in (("visit", visit), ("measure", measure), ("both", both), ("pick", pick)):
+        lib.groups.append(Group(nm + tag, "free", None, fs))
+
+
+def number_classes(lib):
+    """clsid of every class-pointer parameter: 1-based position of its class in the order Shroud wraps classes in."""
+    idx = {c: i + 1 for i, (c, _) in enumerate(lib.all_classes())}
+    for g in lib.groups:
+        for f in g.fns:
+            for p in f.params:
+                if p.kind == "object":
+                    p.clsid = idx[p.ocls]
